@@ -5,10 +5,14 @@
 package main
 
 import (
+	"context"
+	"errors"
 	"fmt"
+	"io"
 	"sort"
 	"strings"
 
+	"github.com/tychoish/fun"
 	"github.com/tychoish/fun/dt"
 	"github.com/tychoish/fun/dt/cmp"
 
@@ -17,8 +21,10 @@ import (
 
 type Case struct {
 	ID   int     `json:"id"`
-	Kind string  `json:"kind"`          // issorted | heap | sort
-	Alg  int     `json:"alg,omitempty"` // sort: 0 SortMerge, 1 SortQuick
+	Kind string  `json:"kind"`           // issorted | heap | sort | heapiter
+	Alg  int     `json:"alg,omitempty"`  // sort: 0 SortMerge, 1 SortQuick
+	Mode int     `json:"mode,omitempty"` // heapiter: 0 the iterator completes, 1 it fails after K values, 2 the context is cancelled while value K is produced
+	K    int     `json:"k,omitempty"`
 	Lt   int     `json:"lt"`
 	L    []int64 `json:"l,omitempty"`
 	Ops  []HOp   `json:"ops,omitempty"`
@@ -120,7 +126,10 @@ type heapObs struct {
 }
 
 func runHeap(c Case) (obs heapObs, trace []string) {
-	h := &dt.Heap[int64]{LT: ltOf(c.Lt)}
+	return runHeapOn(&dt.Heap[int64]{LT: ltOf(c.Lt)}, c)
+}
+
+func runHeapOn(h *dt.Heap[int64], c Case) (obs heapObs, trace []string) {
 	for _, o := range c.Ops {
 		if o.Push {
 			h.Push(o.V)
@@ -180,7 +189,7 @@ func main() {
 	run.ShardSize = 200
 	run.Footer = "Definition M := Eval vm_compute in mismatches cases.\nPrint M."
 	run.CaseType = "case"
-	run.Rule = "IsSorted: random lists over 10 shape families (sorted, reversed, out-of-order pair first/last, negatives, constant, random) x 6 comparison functions; Heap: random push/pop sequences x 6 comparison functions; Sort: SortMerge (6 comparison functions) / SortQuick (5 strict weak orders) on the same list shapes, followed by a pop and a push on the sorted list. distinct = distinct (kind, alg, lt, input); non-trivial = length >= 2 (IsSorted, Sort) or at least one pop after a push (Heap)"
+	run.Rule = "IsSorted: random lists over 10 shape families (sorted, reversed, out-of-order pair first/last, negatives, constant, random) x 6 comparison functions; Heap: random push/pop sequences x 6 comparison functions; heaps built by the real NewHeapFromIterator from iterators that complete / fail after k values / are cancelled at value k, followed by pushes and pops; Sort: SortMerge (6 comparison functions) / SortQuick (5 strict weak orders) on the same list shapes, followed by a pop and a push on the sorted list. distinct = distinct (kind, alg, lt, input); non-trivial = length >= 2 (IsSorted, Sort) or at least one pop after a push (Heap)"
 
 	if run.Replay != "" {
 		var c Case
@@ -209,6 +218,12 @@ func main() {
 		{Kind: "sort", Alg: 0, Lt: 2, L: []int64{5, 2, 8, 3, 0, 6}},
 		{Kind: "sort", Alg: 0, Lt: 3, L: []int64{2, 1}},
 		{Kind: "sort", Alg: 0, Lt: 5, L: []int64{1, 1, 2}},
+		{Kind: "heapiter", Lt: 0, Mode: 0, L: []int64{5, 3, 9, -1, 7, 0, 3}, Ops: []HOp{{}, {Push: true, V: 4}, {}}},
+		{Kind: "heapiter", Lt: 0, Mode: 1, K: 7, L: []int64{5, 3, 9, -1, 7, 0, 3}, Ops: []HOp{{}, {}}},
+		{Kind: "heapiter", Lt: 0, Mode: 1, K: 3, L: []int64{5, 3, 9, -1, 7, 0, 3}, Ops: []HOp{{Push: true, V: 4}, {Push: true, V: -7}, {}}},
+		{Kind: "heapiter", Lt: 0, Mode: 2, K: 5, L: []int64{5, 3, 9, -1, 7, 0, 3}, Ops: []HOp{{Push: true, V: 4}, {Push: true, V: -7}}},
+		{Kind: "heapiter", Lt: 1, Mode: 2, K: 1, L: []int64{1, 2, 3}},
+		{Kind: "heapiter", Lt: 2, Mode: 1, K: 0, L: []int64{1, 2, 3}, Ops: []HOp{{}}},
 		{Kind: "heap", Lt: 0, Ops: []HOp{{Push: true, V: 3}, {Push: true, V: 1}, {Push: true, V: 2}, {}, {Push: true, V: 0}, {}, {}, {}, {}}},
 	}
 	for _, c := range corpus {
@@ -231,6 +246,22 @@ func main() {
 				c.Lt = r.Intn(nStrict) // sort.SliceStable with a non-strict lt is algorithm-specific
 			}
 			c.L = genList(r)
+		} else if r.Chance(1, 2) {
+			c.Kind = "heapiter"
+			c.L = genList(r)
+			c.Mode = r.Intn(3)
+			c.K = r.Intn(len(c.L) + 2)
+			if c.Mode == 2 && c.K == 0 {
+				c.K = 1
+			}
+			span := r.Range(1, 6)
+			for j, nops := 0, r.Range(0, 8); j < nops; j++ {
+				if r.Chance(1, 2) {
+					c.Ops = append(c.Ops, HOp{Push: true, V: int64(r.Intn(2*span+1) - span)})
+				} else {
+					c.Ops = append(c.Ops, HOp{})
+				}
+			}
 		} else {
 			c.Kind = "heap"
 			nops := r.Range(0, 24)
@@ -276,6 +307,8 @@ func execCase(run *kit.Run, c Case, verbose bool) {
 		run.Case(c.ID, c, term, fmt.Sprintf("s|%d|%v", c.Lt, c.L), len(c.L) >= 2)
 	case "sort":
 		execSort(run, c, verbose)
+	case "heapiter":
+		execHeapIter(run, c, verbose)
 	case "heap":
 		obs, _ := runHeap(c)
 		if verbose {
@@ -283,53 +316,7 @@ func execCase(run *kit.Run, c Case, verbose bool) {
 		}
 		// oracles (strict weak orders only): multiset conservation; each pop minimal among what is inside
 		if c.Lt < nStrict {
-			inside := []int64{}
-			pi := 0
-			bad := ""
-			for _, o := range c.Ops {
-				if o.Push {
-					inside = append(inside, o.V)
-					continue
-				}
-				p := obs.Pops[pi]
-				pi++
-				if p == nil {
-					if len(inside) != 0 {
-						bad = "pop reported not-ok on a non-empty heap"
-					}
-					continue
-				}
-				idx := -1
-				for i, w := range inside {
-					if w == *p && idx < 0 {
-						idx = i
-					}
-				}
-				if idx < 0 {
-					bad = fmt.Sprintf("popped %d which is not inside", *p)
-					break
-				}
-				inside = append(inside[:idx], inside[idx+1:]...)
-				for _, w := range inside {
-					if lt(w, *p) {
-						bad = fmt.Sprintf("popped %d while %d (lt it) is still inside", *p, w)
-					}
-				}
-			}
-			if bad == "" {
-				a := append([]int64(nil), inside...)
-				b := append([]int64(nil), obs.Final...)
-				sort.Slice(a, func(i, j int) bool { return a[i] < a[j] })
-				sort.Slice(b, func(i, j int) bool { return b[i] < b[j] })
-				if fmt.Sprint(a) != fmt.Sprint(b) {
-					bad = fmt.Sprintf("remaining content %v is not the multiset pushed-minus-popped %v", obs.Final, inside)
-				}
-				for i := 0; i+1 < len(obs.Final); i++ {
-					if lt(obs.Final[i+1], obs.Final[i]) {
-						bad = fmt.Sprintf("drain order %v is not non-decreasing", obs.Final)
-					}
-				}
-			}
+			bad := heapOracle(lt, nil, c.Ops, obs)
 			if bad != "" {
 				cls := "order"
 				if strings.Contains(bad, "multiset") || strings.Contains(bad, "not inside") || strings.Contains(bad, "not-ok") {
@@ -469,32 +456,109 @@ func execSort(run *kit.Run, c Case, verbose bool) {
 		if allIn == 0 {
 			fail("usable", "an element of the sorted list does not report In(list)")
 		}
-		// the list must stay usable: pop the front, push a value
+		// the list must stay FULLY usable: the probe below touches the sentinel side too
+		// (PushFront, pushes into the drained list); it mirrors `probe` in coq/Corr/C17_corr.v
+		// and is judged against a plain-slice reference
 		func() {
 			defer func() {
 				if p := recover(); p != nil {
-					fail("usable", fmt.Sprint("panic after sort: ", p))
+					fail("usable", fmt.Sprint("panic in the usability probe after the sort: ", p))
 				}
 			}()
-			e := l.PopFront()
-			obs = append(obs, map[bool]int64{false: 0, true: 1}[e.Ok()], e.Value())
-			if len(f) > 0 && (!e.Ok() || e != fp[0] || e.In(l)) {
-				fail("usable", fmt.Sprintf("PopFront after the sort did not return the first element (ok=%v)", e.Ok()))
+			ref := append([]int64{}, f...)
+			b2i := func(b bool) int64 {
+				if b {
+					return 1
+				}
+				return 0
 			}
+			check := func(step string) {
+				fw, _ := walk(true)
+				bw, _ := walk(false)
+				okb := len(bw) == len(fw)
+				for i := range fw {
+					if okb && fw[i] != bw[len(bw)-1-i] {
+						okb = false
+					}
+				}
+				if fmt.Sprint(fw) != fmt.Sprint(ref) || !okb || l.Len() != len(ref) {
+					fail("usable", fmt.Sprintf("%s after the sort: forward %v backward %v Len %d, plain-slice reference %v", step, fw, bw, l.Len(), ref))
+				}
+			}
+			// 1. PushFront (goes through the sentinel)
+			l.PushFront(88)
+			ref = append([]int64{88}, ref...)
+			f1, _ := walk(true)
+			lp(f1)
+			fr := l.Front()
+			obs = append(obs, int64(l.Len()), b2i(fr.In(l)), fr.Value())
+			check("PushFront")
+			if !fr.Ok() || !fr.In(l) || fr.Value() != 88 {
+				fail("usable", "after PushFront the front element is not the pushed value or does not report In(list)")
+			}
+			// 2. PushBack
 			l.PushBack(77)
+			ref = append(ref, 77)
 			f2, _ := walk(true)
-			b2, _ := walk(false)
 			lp(f2)
-			lp(b2)
+			bk := l.Back()
+			obs = append(obs, int64(l.Len()), b2i(bk.In(l)), bk.Value())
+			check("PushBack")
+			if !bk.Ok() || !bk.In(l) || bk.Value() != 77 {
+				fail("usable", "after PushBack the back element is not the pushed value or does not report In(list)")
+			}
+			// 3. PopFront, 4. PopBack
+			e3 := l.PopFront()
+			obs = append(obs, b2i(e3.Ok()), e3.Value(), b2i(e3.In(l)), int64(l.Len()))
+			if !e3.Ok() || e3.Value() != ref[0] || e3.In(l) {
+				fail("usable", fmt.Sprintf("PopFront after the sort returned ok=%v value=%d in=%v, expected %d", e3.Ok(), e3.Value(), e3.In(l), ref[0]))
+			}
+			ref = ref[1:]
+			check("PopFront")
+			e4 := l.PopBack()
+			obs = append(obs, b2i(e4.Ok()), e4.Value(), b2i(e4.In(l)), int64(l.Len()))
+			if !e4.Ok() || e4.Value() != ref[len(ref)-1] || e4.In(l) {
+				fail("usable", fmt.Sprintf("PopBack after the sort returned ok=%v value=%d in=%v, expected %d", e4.Ok(), e4.Value(), e4.In(l), ref[len(ref)-1]))
+			}
+			ref = ref[:len(ref)-1]
+			check("PopBack")
+			// 5. drain completely
+			dr := []int64{}
+			for i := 0; i < len(c.L)+4; i++ {
+				e := l.PopFront()
+				if !e.Ok() {
+					break
+				}
+				dr = append(dr, e.Value())
+			}
+			lp(dr)
 			obs = append(obs, int64(l.Len()))
-			want := append([]int64{}, f...)
-			if len(want) > 0 {
-				want = want[1:]
+			if fmt.Sprint(dr) != fmt.Sprint(ref) || l.Len() != 0 {
+				fail("usable", fmt.Sprintf("draining the sorted list popped %v and left Len %d, reference %v", dr, l.Len(), ref))
 			}
-			want = append(want, 77)
-			if fmt.Sprint(f2) != fmt.Sprint(want) || l.Len() != len(want) || len(b2) != len(want) {
-				fail("usable", fmt.Sprintf("after pop+push the list walks %v / %v with Len %d, expected %v", f2, b2, l.Len(), want))
+			ref = ref[:0]
+			check("drain")
+			// 6. push into the drained list (both pushes go through the sentinel)
+			l.PushBack(55)
+			l.PushFront(44)
+			ref = []int64{44, 55}
+			f6, _ := walk(true)
+			b6, _ := walk(false)
+			lp(f6)
+			lp(b6)
+			obs = append(obs, int64(l.Len()), b2i(l.Front().In(l)), b2i(l.Back().In(l)))
+			check("push after drain")
+			if !l.Front().In(l) || !l.Back().In(l) {
+				fail("usable", "elements pushed into the drained list do not report In(list)")
 			}
+			// 7. final pop
+			e7 := l.PopFront()
+			obs = append(obs, b2i(e7.Ok()), e7.Value(), int64(l.Len()))
+			if !e7.Ok() || e7.Value() != 44 {
+				fail("usable", fmt.Sprintf("PopFront after refilling returned ok=%v value=%d, expected 44", e7.Ok(), e7.Value()))
+			}
+			ref = ref[1:]
+			check("final PopFront")
 		}()
 	}
 	if verbose {
@@ -509,6 +573,149 @@ func execSort(run *kit.Run, c Case, verbose bool) {
 		term = fmt.Sprintf("CSort %s %s %s %s %s", kit.ZI(c.ID), kit.ZI(c.Alg&1), kit.ZI(c.Lt), kit.ZList(c.L), kit.ZList(obs))
 	}
 	run.Case(c.ID, c, term, fmt.Sprintf("q|%d|%d|%v", c.Alg, c.Lt, c.L), len(c.L) >= 2)
+}
+
+// heapOracle: multiset conservation and minimality of every pop, starting from a heap that holds
+// `initial`; returns "" or a description of the first violation.
+func heapOracle(lt cmp.LessThan[int64], initial []int64, ops []HOp, obs heapObs) string {
+	inside := append([]int64{}, initial...)
+	pi := 0
+	bad := ""
+	for _, o := range ops {
+		if o.Push {
+			inside = append(inside, o.V)
+			continue
+		}
+		p := obs.Pops[pi]
+		pi++
+		if p == nil {
+			if len(inside) != 0 {
+				bad = "pop reported not-ok on a non-empty heap"
+			}
+			continue
+		}
+		idx := -1
+		for i, w := range inside {
+			if w == *p && idx < 0 {
+				idx = i
+			}
+		}
+		if idx < 0 {
+			bad = fmt.Sprintf("popped %d which is not inside", *p)
+			break
+		}
+		inside = append(inside[:idx], inside[idx+1:]...)
+		for _, w := range inside {
+			if lt(w, *p) {
+				bad = fmt.Sprintf("popped %d while %d (lt it) is still inside", *p, w)
+			}
+		}
+	}
+	if bad == "" {
+		a := append([]int64(nil), inside...)
+		b := append([]int64(nil), obs.Final...)
+		sort.Slice(a, func(i, j int) bool { return a[i] < a[j] })
+		sort.Slice(b, func(i, j int) bool { return b[i] < b[j] })
+		if fmt.Sprint(a) != fmt.Sprint(b) {
+			bad = fmt.Sprintf("remaining content %v is not the multiset pushed-minus-popped %v", obs.Final, inside)
+		}
+		for i := 0; i+1 < len(obs.Final); i++ {
+			if lt(obs.Final[i+1], obs.Final[i]) {
+				bad = fmt.Sprintf("drain order %v is not non-decreasing", obs.Final)
+			}
+		}
+	}
+	return bad
+}
+
+// ---------------------------------------------------------------- NewHeapFromIterator
+
+var errSource = errors.New("source failed")
+
+// buildHeapFromIterator runs the real NewHeapFromIterator on an iterator over c.L that completes
+// (mode 0), fails with an error after K values (mode 1), or whose context is cancelled while
+// value K is being produced (mode 2).
+func buildHeapFromIterator(c Case) (h *dt.Heap[int64], err error, panicked string) {
+	defer func() {
+		if p := recover(); p != nil {
+			panicked = fmt.Sprint(p)
+		}
+	}()
+	ctx, cancel := context.WithCancel(context.Background())
+	defer cancel()
+	idx := 0
+	iter := fun.Producer[int64](func(context.Context) (int64, error) {
+		if c.Mode == 1 && idx >= min(c.K, len(c.L)) {
+			return 0, errSource
+		}
+		if idx >= len(c.L) {
+			return 0, io.EOF
+		}
+		idx++
+		if c.Mode == 2 && idx == c.K {
+			cancel()
+		}
+		return c.L[idx-1], nil
+	}).Iterator()
+	if c.Mode == 0 && idx == 0 && len(c.L)%2 == 0 {
+		iter = fun.SliceIterator(append([]int64{}, c.L...)) // the library's own slice iterator, too
+	}
+	h, err = dt.NewHeapFromIterator(ctx, ltOf(c.Lt), iter)
+	return h, err, ""
+}
+
+func execHeapIter(run *kit.Run, c Case, verbose bool) {
+	lt := ltOf(c.Lt)
+	h, err, panicked := buildHeapFromIterator(c)
+	bad := ""
+	switch {
+	case panicked != "":
+		bad = "NewHeapFromIterator panicked: " + panicked
+	case h == nil:
+		bad = "NewHeapFromIterator returned a nil heap"
+	case c.Mode == 0 && err != nil:
+		bad = fmt.Sprint("a complete iterator produced the error ", err)
+	case c.Mode == 1 && !errors.Is(err, errSource):
+		bad = fmt.Sprint("the source's error was not returned: ", err)
+	case c.Mode == 2 && c.K >= 1 && c.K <= len(c.L) && !errors.Is(err, context.Canceled):
+		bad = fmt.Sprint("cancellation was not reported: ", err)
+	}
+	if bad != "" {
+		run.OracleFail(c.ID, "C17:Heap:from-iterator-order", bad, c, nil)
+		run.Case(c.ID, c, "", fmt.Sprintf("i|%d|%d|%d|%v", c.Lt, c.Mode, c.K, c.L), true)
+		return
+	}
+	n := h.Len()
+	if n < 0 || n > len(c.L) {
+		n = len(c.L)
+	}
+	consumed := append([]int64{}, c.L[:n]...)
+	switch {
+	case c.Mode == 0 && n != len(c.L):
+		bad = fmt.Sprintf("a complete iterator of %d values left a heap of %d", len(c.L), h.Len())
+	case c.Mode == 1 && n != min(c.K, len(c.L)):
+		bad = fmt.Sprintf("the source failed after %d values but the heap holds %d", c.K, h.Len())
+	}
+	obs, _ := runHeapOn(h, c)
+	if bad == "" && c.Lt < nStrict {
+		bad = heapOracle(lt, consumed, c.Ops, obs)
+	}
+	if verbose {
+		fmt.Printf("NewHeapFromIterator(lt=%d, mode=%d, k=%d, %v) err=%v consumed=%v ops=%v pops=%s final=%v oracle: %q\n", c.Lt, c.Mode, c.K, c.L, err, consumed, c.Ops, coqPops(obs.Pops), obs.Final, bad)
+	}
+	if bad != "" {
+		run.OracleFail(c.ID, "C17:Heap:from-iterator-order", bad, c, obs)
+	}
+	run.Count(fmt.Sprintf("heapiter/mode%d/consumed%s", c.Mode, bucket(n)))
+	term := fmt.Sprintf("CHeapIter %s %s %s %s %s %s", kit.ZI(c.ID), kit.ZI(c.Lt), kit.ZList(consumed), coqOps(c.Ops), coqPops(obs.Pops), kit.ZList(obs.Final))
+	run.Case(c.ID, c, term, fmt.Sprintf("i|%d|%d|%d|%v|%v", c.Lt, c.Mode, c.K, c.L, c.Ops), n >= 2)
+}
+
+func min(a, b int) int {
+	if a < b {
+		return a
+	}
+	return b
 }
 
 func bucket(n int) string {
